@@ -497,10 +497,30 @@ Proof.
     rewrite (keep_objs s s' l K). tauto. }
   induction fuel as [|fuel IH]; intros s t Q; cbn [propagate_task].
   - destruct (negb (is_prio_task s t)); [apply Triv; auto|].
-    destruct (task_is_runnable s t); [apply Triv; auto|].
+    set (s0 := if task_is_runnable s t then task_reschedule s t else s).
+    assert (P0 : QF s0 /\ tasks s0 = tasks s /\ futs s0 = futs s /\
+                 (forall l f, In f (objs s0 l) <-> In f (objs s l)))
+      by (unfold s0; destruct (task_is_runnable s t); apply Triv; auto).
+    clearbody s0. destruct P0 as (Q0 & Et0 & Ef0 & Ho0).
+    match goal with |- QF ?R /\ _ =>
+      cut (QF R /\ tasks R = tasks s0 /\ futs R = futs s0 /\
+           (forall l f, In f (objs R l) <-> In f (objs s0 l))) end;
+      [intros (A & B & C & D); split; [exact A|]; split; [congruence|]; split; [congruence|];
+       intros l1 g; rewrite D; apply Ho0|].
+    clear Ho0 Et0 Ef0 Q s. rename s0 into s, Q0 into Q.
     destruct (twaiting (gett s t)); apply Triv; auto.
   - destruct (negb (is_prio_task s t)); [apply Triv; auto|].
-    destruct (task_is_runnable s t); [apply Triv; auto|].
+    set (s0 := if task_is_runnable s t then task_reschedule s t else s).
+    assert (P0 : QF s0 /\ tasks s0 = tasks s /\ futs s0 = futs s /\
+                 (forall l f, In f (objs s0 l) <-> In f (objs s l)))
+      by (unfold s0; destruct (task_is_runnable s t); apply Triv; auto).
+    clearbody s0. destruct P0 as (Q0 & Et0 & Ef0 & Ho0).
+    match goal with |- QF ?R /\ _ =>
+      cut (QF R /\ tasks R = tasks s0 /\ futs R = futs s0 /\
+           (forall l f, In f (objs R l) <-> In f (objs s0 l))) end;
+      [intros (A & B & C & D); split; [exact A|]; split; [congruence|]; split; [congruence|];
+       intros l1 g; rewrite D; apply Ho0|].
+    clear Ho0 Et0 Ef0 Q s. rename s0 into s, Q0 into Q.
     destruct (twaiting (gett s t)) as [l|]; [|apply Triv; auto].
     set (s1 := match lowner (getl s l) with Some o => propagate_task fuel s o | None => s end).
     assert (P1 : QF s1 /\ tasks s1 = tasks s /\ futs s1 = futs s /\
